@@ -72,6 +72,14 @@ CORPUS = [
     # cancels; p*q*(p*q)**r is a canonical Mul, the regrouped product is (p*q)**(1 + r))
     "(addv (neg (addv b z)) y (addv b z)) ;; (f1 sin (addv b z))",
     "(mulv x y (pow (mulv x y) w)) ;; (add (mulv x y) z)",
+    # known finding: the rebuild of tree_cse alone (no opt_subs) gives another canonical form: w**w * (w**w)**(w**w) is a canonical
+    # Mul (dict {w: w, w**w: w**w}) but mul(x0, x0**x0) = x0**(1 + x0); an Add with the inexact coefficient 0.0 loses it
+    # (get_args() omits a zero coefficient, add(args) starts from the exact 0)
+    "(mul (pow w w) (pow (pow w w) (pow w w)))",
+    "(addv (d bff8000000000000) y (addv b (d 3ff8000000000000)))",
+    "(mul x (addv (d bff8000000000000) y (addv b (d 3ff8000000000000))))",
+    # cse returns; the library's subs() crashes on the back-substitution (C10/crash:subs-recursion-after-nan-derivative)
+    "(diff (fs f x (f2 beta b I)) x)",
     # known finding: in-band function names; regression cases of the fixed Piecewise-condition defect
     "(fs add x y) ;; (i 1)",
     "(fs mul x y) ;; (fs mul x y)",
@@ -177,7 +185,7 @@ def gen_case(rng):
 CLASS_NAMES = ["shape", "unfaithful", "not-fresh", "cyclic", "not-closed"]
 
 
-def classify(cls, hints, detail="", tag="C", t_faithful=True):
+def classify(cls, hints, detail="", tag="C", t_faithful=True, certified=False):
     """violation key for an oracle class, using the driver's hints about the input"""
     if cls in ("unfaithful", "crash") and "reserved-funsym" in hints:
         return "C37/%s:funsym-named-add-mul-pow" % cls
@@ -186,6 +194,13 @@ def classify(cls, hints, detail="", tag="C", t_faithful=True):
         # opt_cse (match_common_args) produced another canonical form
         return "C37/unfaithful:regrouped-by-opt-cse-other-canonical-form"
     if cls == "unfaithful" and detail.startswith("expand-equal"):
+        return "C37/unfaithful:rebuild-other-canonical-form"
+    if cls == "unfaithful" and detail.startswith("differs") and certified:
+        # tree_cse() alone is not faithful up to eq, but ON THIS INSTANCE the extracted model returned exactly the
+        # library's replacements and reduced expressions, the inputs are well-formed and inside the guard of
+        # C37_tree_cse_faithful_wf and excl_complete holds: by that theorem the outputs are a faithful factoring under
+        # every compositional semantics, so back-substitution and input differ only in their canonical form (the
+        # constructors add / mul / pow are not injective up to eq on the rebuilt arguments)
         return "C37/unfaithful:rebuild-other-canonical-form"
     return "C37/" + cls
 
@@ -217,21 +232,31 @@ def explore(ctx, drv, model, cases, stats, search=False):
                 sec[parts[j]] = parts[j + 1]
         rep = {"family": "C37", "case": cases[i]}
         ctx.cov["traces_validated_against_impl"] += 1
+        m = mod[k]
+        f = dict(p.split("=", 1) for p in m.split("\t")) if m.startswith("CHKC=") else None
+        # the faithfulness theorem applies to this very instance and the model reproduces tree_cse exactly
+        certified = bool(f) and f.get("T0") == "OK" and f.get("GUARD") == "0" and f.get("XC") == "1" and f.get("WF") == "1"
         # ---- oracle on the library's outputs
-        t_faithful = not any(o.startswith("T:unfaithful") or o.startswith("T:crash") or o.startswith("T:exception") for o in oracles)
+        t_faithful = not any(o.startswith(("T:unfaithful", "T:crash", "T:exception", "T:hang", "T:backsubst")) for o in oracles)
         for o in oracles:
             tag, _, rest = o.partition(":")
             cls, _, detail = rest.partition(":")
-            ctx.violation(classify(cls, hints, detail, tag, t_faithful),
+            if cls == "backsubst-crash" and "subs-node" in hints and "nan" in hints:
+                # cse() / tree_cse() returned; the library's subs() died substituting into a Subs / Derivative node next
+                # to a nan "derivative" of a constant: unbounded DiffVisitor::bvisit(Subs) <-> SubsVisitor::bvisit(Derivative)
+                # recursion, known finding C10/crash:subs-recursion-after-nan-derivative -- a defect of subs()/diff(), not of
+                # cse: faithfulness cannot be observed through the library's subs() on this input
+                stats["backsubst_crashes_in_library_subs(C10/crash:subs-recursion-after-nan-derivative)"] = \
+                    stats.get("backsubst_crashes_in_library_subs(C10/crash:subs-recursion-after-nan-derivative)", 0) + 1
+                continue
+            ctx.violation(classify(cls, hints, detail, tag, t_faithful, certified),
                           "%s(es) with es = [%s]: %s %s; outputs: %s" % ("cse" if tag == "C" else "tree_cse", cases[i], cls, detail, sec.get(tag, "")[:400]),
                           rep)
-        m = mod[k]
-        if not m.startswith("CHKC="):
+        if f is None:
             nbroken += 1
             if nbroken <= 3:
                 ctx.broken.append({"kind": "correspondence", "name": "C37 model reader", "detail": m[:300] + "\n" + cases[i]})
             continue
-        f = dict(p.split("=", 1) for p in m.split("\t"))
         # ---- the proved checker on the library's outputs
         for tag, fld in (("C", "CHKC"), ("T", "CHKT")):
             bits = f[fld]
@@ -247,6 +272,8 @@ def explore(ctx, drv, model, cases, stats, search=False):
                     continue
                 if cls in orc_classes or (cls == "cyclic" and "not-fresh" in orc_classes):
                     continue   # already reported through the oracle
+                if cls == "unfaithful" and any(c.startswith("backsubst-") for c in orc_classes):
+                    continue   # no back-substituted trees to judge (the library's subs() died; handled above)
                 if cls == "unfaithful":
                     # model of eq and library eq disagree on a back-substituted tree: a broken tie (C01), unless wf fails
                     nbroken += 1
@@ -312,6 +339,12 @@ def run(ctx):
     if stats.get("backsubst_differs"):
         ctx.notes.append("the model's homomorphic back-substitution (CseCheck.backsubst over the library constructors) differs from the "
                          "library's subs() on %d cases (informational: subs() is a different code path, e.g. Derivative/Subs nodes)" % stats["backsubst_differs"])
+    kb = "backsubst_crashes_in_library_subs(C10/crash:subs-recursion-after-nan-derivative)"
+    if stats.get(kb):
+        ctx.notes.append("on %d cases cse()/tree_cse() returned but the library's subs() crashed while substituting the replacements back "
+                         "(inputs with a Subs/Derivative node and a nan coefficient: known finding C10/crash:subs-recursion-after-nan-derivative); "
+                         "faithfulness is not observable through subs() there -- shape, freshness, acyclicity, closedness and the exact "
+                         "model correspondence were still checked" % stats[kb])
     for k, v in sorted(stats.items()):
         if k != "nontrivial":
             ctx.cov[k] = v
@@ -336,6 +369,12 @@ def run(ctx):
         "constructors outside the arithmetic model (function create() on a non-Symbol argument, LeviCivita, max/min with several numbers) make "
         "the exact comparison skip the case (counted as *_outside_model); the checker and the oracle still apply",
         "next_symbol_index is a 32-bit counter: the model stops instead of wrapping after 2^32 symbols",
+        "guard of the faithfulness oracle: when cse() returned and the library's subs() crashes on the back-substitution of an input that "
+        "contains a Subs/Derivative node and a NaN (C10/crash:subs-recursion-after-nan-derivative), faithfulness is not judged on that input "
+        "(counted in backsubst_crashes_in_library_subs); any other crash / hang of the back-substitution is reported as a violation",
+        "key C37/unfaithful:rebuild-other-canonical-form is given to an eq-unfaithful result only when the difference expands to 0 or when, on "
+        "that very instance, the model reproduces tree_cse exactly (T0=OK) and the hypotheses of C37_tree_cse_faithful_wf hold (WF, XC, guard), "
+        "i.e. the factoring is proved faithful under every compositional semantics",
     ]
 
 
